@@ -775,3 +775,133 @@ func genEraseSites(a *An) {
 	}
 	fmt.Println("}")
 }
+
+// ---- constants handed to calls ---------------------------------------------------------------------------------------
+// frozenConstArgs: function → the constant (numeric, boolean) arguments of the calls in it and the constant
+// sizes of the buffers it makes, as "callee#index=value". A size, a base, a flag, a message type or an event code
+// passed as a literal is part of what the function does; a renamed or newly named constant of the same value reads
+// the same.
+
+func (a *An) currentConstArgs() map[string][]string {
+	out := map[string][]string{}
+	for _, f := range a.C.FuncSeq {
+		if f.Blocks == nil {
+			continue
+		}
+		o := a.C.alias(a.C.owner(f))
+		for _, b := range f.Blocks {
+			for _, in := range b.Instrs {
+				switch x := in.(type) {
+				case ssa.CallInstruction:
+					com := x.Common()
+					name := ""
+					if sc := com.StaticCallee(); sc != nil {
+						name = a.C.alias(sc)
+						if a.C.isNew(sc) && sc.Pkg == f.Pkg {
+							continue // the constants a new helper is given show up where the helper uses them
+						}
+					} else if bi, ok := com.Value.(*ssa.Builtin); ok {
+						name = bi.Name()
+					} else if com.IsInvoke() {
+						name = typeName(com.Value.Type()) + "." + com.Method.Name()
+					} else {
+						continue
+					}
+					for i, arg := range com.Args {
+						if mi, isMI := arg.(*ssa.MakeInterface); isMI {
+							arg = mi.X
+						}
+						k, ok := arg.(*ssa.Const)
+						if !ok || k.Value == nil || k.Value.Kind() == constant.String {
+							continue // texts of errors and of the debug dump are not behaviour the properties talk about
+						}
+						out[o] = append(out[o], fmt.Sprintf("%s#%d=%s", name, i, constStr(k)))
+					}
+				case *ssa.MakeSlice:
+					if k, ok := x.Len.(*ssa.Const); ok && k.Value != nil {
+						out[o] = append(out[o], "make#len="+constStr(k))
+					}
+				}
+			}
+		}
+	}
+	for k := range out {
+		sort.Strings(out[k])
+	}
+	return out
+}
+
+func (a *An) closedConstArgs(prop string) {
+	R := a.R
+	cur := a.currentConstArgs()
+	gp := map[string]string{}
+	for f, p := range a.fnProps() {
+		gp[a.C.alias(f)] = p
+	}
+	names := map[string]bool{}
+	for k := range cur {
+		names[k] = true
+	}
+	for k := range frozenConstArgs {
+		names[k] = true
+	}
+	n := 0
+	for _, fn := range sortedKeys(names) {
+		// the part of the protocol the function belongs to; every constant is also part of what goes on the wire
+		props := gp[fn] + " C10"
+		if !strings.Contains(props, prop) {
+			continue
+		}
+		frozen, known := frozenConstArgs[fn]
+		if !known {
+			if f, ok := a.C.Fn(fn); ok && a.C.isNew(f) {
+				continue
+			}
+		}
+		n++
+		c := cur[fn]
+		if strings.Join(c, " ") == strings.Join(frozen, " ") {
+			R.Ok("K.const-args", "consts|"+fn, "the constants "+fn+" hands to its calls are the reviewed ones", "")
+			continue
+		}
+		cnt := map[string]int{}
+		for _, x := range c {
+			cnt[x]++
+		}
+		for _, x := range frozen {
+			cnt[x]--
+		}
+		var added, dropped []string
+		for x, k := range cnt {
+			if k > 0 {
+				added = append(added, x)
+			} else if k < 0 {
+				dropped = append(dropped, x)
+			}
+		}
+		sort.Strings(added)
+		sort.Strings(dropped)
+		R.Viol("K.const-args", "consts|"+fn, "the constants "+fn+" hands to its calls are the reviewed ones", "",
+			"now: "+strings.Join(added, ", ")+"; reviewed: "+strings.Join(dropped, ", ")+" — a size, code, flag or bound passed as a literal changed")
+	}
+	R.Extra["functions_with_closed_constant_arguments"] = n
+}
+
+func genConstArgs(a *An) {
+	fmt.Println()
+	fmt.Println("var frozenConstArgs = map[string][]string{")
+	g := a.currentConstArgs()
+	var keys []string
+	for k := range g {
+		keys = append(keys, k)
+	}
+	sort.Strings(keys)
+	for _, k := range keys {
+		var q []string
+		for _, x := range g[k] {
+			q = append(q, fmt.Sprintf("%q", x))
+		}
+		fmt.Printf("\t%q: {%s},\n", k, strings.Join(q, ", "))
+	}
+	fmt.Println("}")
+}
